@@ -60,7 +60,7 @@ theorem IncInv.changeIdentity_at (s0 : State) (newId : Id) (pol : Policy)
     · have B := IncInv.base E a newId.gen 0
       refine Pres.bind (IncInv.reset_after a newId.gen) (fun _ => ?_)
       split
-      · exact Pres.bind (B.addUpdate _) (fun _ => B.gossip)
+      · exact Pres.bind (B.addUpdate _ trivial) (fun _ => B.gossip)
       · exact B.gossip
     · intro s hs
       obtain ⟨h1, h2, h3⟩ := hs
@@ -125,11 +125,11 @@ theorem IncInv.handleSelfUpdate (inc : Nat) (st : St) : Pres (IncInv a g n) (Foc
           · exact Or.inr ⟨h3.1, by simp only; omega⟩
         · exact PresAt.of_pres B.gossip
 
-theorem IncInv.full : Full E (IncInv a g n) (fun _ => True) where
+theorem IncInv.full : Full E (IncInv a g n) (fun _ => True) (fun _ => True) (fun _ => True) where
   toBase := IncInv.base E a g n
   handleSelfUpdate := IncInv.handleSelfUpdate E a g n
-  senderOk := fun _ _ _ _ => trivial
-  applyOk := fun _ _ _ _ _ => trivial
+  senderOk := fun _ _ _ _ _ => trivial
+  applyOk := fun _ _ _ _ _ _ => trivial
   failedOk := fun _ _ _ _ => trivial
 
 end
